@@ -549,8 +549,8 @@ def regression_cases():
 # ---------------------------------------------------------------------------------------------
 def run(ctx):
     tier = ctx.tier
-    ncases = 190 if tier == "quick" else 4000
-    nchains = 30 if tier == "quick" else 500
+    ncases = 150 if tier == "quick" else 4000
+    nchains = 24 if tier == "quick" else 500
     if ctx.replay_case:
         cases = [ctx.replay_case["detail"]["case"]]
     else:
@@ -638,7 +638,7 @@ def run(ctx):
     ichk = [k for k, (kd, _) in enumerate(meta) if kd == "chk"]
     irpl = [k for k, (kd, _) in enumerate(meta) if kd != "chk"]
     vals = [None] * len(terms)
-    for idx, tag, sh in ((ichk, "cert", 10 if tier == "quick" else 30), (irpl, "replay", 10 if tier == "quick" else 16)):
+    for idx, tag, sh in ((ichk, "cert", 15 if tier == "quick" else 30), (irpl, "replay", 12 if tier == "quick" else 16)):
         for k, v in zip(idx, ctx.coq(PRE, [terms[k] for k in idx], shard=sh, tag=tag)):
             vals[k] = v
 
